@@ -179,7 +179,7 @@ def replay(hist, n, ra, rt, dt, ignore_exc, variant):
             except Exception as e:   # noqa
                 out += env.events
                 x = env.raised.get(id(e))
-                out.append({"e": "raise", "x": x if x is not None else ("all" if "All servers" in str(e) else "other:" + type(e).__name__)})
+                out.append(raise_event(x, e))
             else:
                 out += env.events
                 out.append(ret_event(env, res))
@@ -207,16 +207,24 @@ def replay(hist, n, ra, rt, dt, ignore_exc, variant):
             except MemcacheError as e:
                 out += env.events
                 x = env.raised.get(id(e))
-                out.append({"e": "raise", "x": x if x is not None else ("all" if "All servers" in str(e) else "other:" + type(e).__name__)})
+                out.append(raise_event(x, e))
             except Exception as e:   # noqa
                 out += env.events
                 x = env.raised.get(id(e))
-                out.append({"e": "raise", "x": x if x is not None else "other:" + type(e).__name__})
+                out.append(raise_event(x, e, allow_all=False))
             else:
                 out += env.events
                 out.append(ret_event(env, res1 if op == "get_many" else None))
     return {"h": {"n": n, "ra": ra, "rt": rt, "dt": dt, "ignore_exc": ignore_exc, "maxrej": 4}, "ev": out,
             "hist": hist, "variant": variant}
+
+
+def raise_event(x, e, allow_all=True):
+    if x is not None:
+        return {"e": "raise", "x": x, "xs": "id"}
+    if allow_all and "All servers" in str(e):
+        return {"e": "raise", "x": 0, "xs": "all"}
+    return {"e": "raise", "x": 0, "xs": "other:" + type(e).__name__}
 
 
 def ret_event(env, res):
